@@ -2,7 +2,7 @@
 probe on the long-lived engine vs the same probe on a fresh engine over a copy of the DB."""
 import shutil
 
-from kmip.core import enums
+from kmip.core import enums, exceptions
 
 from kv import rig
 from kv.gen import requests as G
@@ -21,7 +21,7 @@ def plan(tier):
                 'is sent to the long-lived engine and to a fresh engine on a byte copy of the same '
                 'database under the same virtual clock; a cell is (kind of last prefix request, probe, '
                 'same/other identity, version change, outcome)',
-        'min_monitor': {'twin_pairs_compared': 300, 'probes_identifierless': 100},
+        'min_monitor': {'twin_pairs_compared': 300, 'probes_identifierless': 100, 'connection_twin_pairs_compared': 80},
         'assumptions': ['probes are random-free so the twin is comparable byte for byte',
                         'copying the SQLite file between requests yields the committed store'],
     }
@@ -29,7 +29,7 @@ def plan(tier):
 
 def cases(tier, seed):
     n = 64 if tier == 'quick' else 800
-    return [{'hist': i} for i in range(n)]
+    return [{'hist': i} for i in range(n)] + [{'conn': i} for i in range(32 if tier == 'quick' else 400)]
 
 
 LAST_KINDS = ['create', 'register', 'create_key_pair', 'derive_key', 'batch_create_get',
@@ -175,7 +175,143 @@ def probe_request(name, rng, objs, version):
     raise ValueError(name)
 
 
+CONN_PREFIX = ['maxsize_fits', 'maxsize_fits', 'maxsize_too_small', 'other_version', 'garbage', 'unsupported_version', 'async',
+               'credential', 'batch_continue', 'stale', 'random', 'placeholder', 'undo']
+
+
+def run_connection(ctx, case):
+    """The same isolation at the connection: a real KmipSession serves a prefix of requests on one connection (limits on
+    the response size, other protocol versions, header options, credentials, refused and undecodable frames, batches),
+    then a probe on the same connection.  The probe must be answered as on a new connection to a new engine over a
+    copy of the same database."""
+    from kv.checks.c16 import with_version
+    rng = ctx.rng()
+    clock = rig.install_clock(rig.VClock(step=0))
+    with rig.scratch_dir() as d:
+        srv = rig.Server(d + '/db.sqlite')
+        try:
+            objs = store.populate(srv, rng, n=8, owners=('alice', 'bob'))
+            big = store.register(srv, 'secret', 'alice', rng, value=bytes(range(256)) * 3, names=['big-alice'], state='pre')
+            bigb = store.register(srv, 'secret', 'bob', rng, value=bytes(range(256)) * 3, names=['big-bob'], state='pre')
+            for rnd in range(10):
+                user = rng.choice(('alice', 'bob'))
+                ident = (user, None)
+                cert = rig.make_cert((user,), 'client')
+                mine = [o for o in objs if o.owner == user] or objs
+                frames, kinds = [], []
+                for _ in range(rng.randrange(1, 5)):
+                    kind = rng.choice(CONN_PREFIX)
+                    v = rng.choice(rig.VERSIONS)
+                    kw = {}
+                    ops = [rng.choice((op_query(), op_get(rng.choice(mine).uid), op_locate(), op_get_attributes(rng.choice(mine).uid)))]
+                    try:
+                        if kind == 'maxsize_fits':
+                            kw['max_size'] = rng.choice((600, 1024, 2048, 8192, 2 ** 20))
+                            ops = [rng.choice((op_discover_versions(), op_get('777777'), op_locate([rig.attr(E.AttributeType.NAME, name_value('no-such-name'))])))]
+                        elif kind == 'maxsize_too_small':
+                            kw['max_size'] = rng.choice((1, 8, 100, 207, 208, 300))
+                        elif kind == 'garbage':
+                            junk = bytes(rng.getrandbits(8) for _ in range(rng.choice((8, 16, 40))))
+                            frames.append(b'\x42\x00\x78\x01' + len(junk).to_bytes(4, 'big') + junk)
+                            kinds.append(kind)
+                            continue
+                        elif kind == 'unsupported_version':
+                            frames.append(with_version(rig.encode_request(rig.build_request((1, 2), []), (1, 2)), rng.choice(((3, 0), (1, 9), (0, 9)))))
+                            kinds.append(kind)
+                            continue
+                        elif kind == 'async':
+                            kw['asynchronous'] = True
+                        elif kind == 'credential':
+                            kw['credential'] = (rng.choice((user, 'somebody')), 'pw-%d' % rnd)
+                        elif kind == 'batch_continue':
+                            ops = [op_get('777777'), op_create(names=['conn-%d-%d' % (case['conn'], rnd)]), op_get(None)]
+                            kw['error_option'] = E.BatchErrorContinuationOption.CONTINUE
+                        elif kind == 'stale':
+                            kw['time_stamp'] = 1000
+                        elif kind == 'random':
+                            ops = [G.random_op(rng, v, objs)[1]]
+                        elif kind == 'placeholder':
+                            ops = [op_create(names=['connp-%d-%d' % (case['conn'], rnd)]), op_get_attributes(None)]
+                        elif kind == 'undo':
+                            kw['error_option'] = E.BatchErrorContinuationOption.UNDO
+                        frames.append(rig.encode_request(rig.build_request(v, ops, **kw), v))
+                        kinds.append(kind)
+                    except Exception:
+                        continue
+                if not frames:
+                    continue
+                pv = rng.choice(rig.VERSIONS)
+                pname, pops, pkw = rng.choice((
+                    ('get_big', [op_get((big if user == 'alice' else bigb).uid)], {}),
+                    ('get_big', [op_get((big if user == 'alice' else bigb).uid)], {}),
+                    ('get_attributes', [op_get_attributes(rng.choice(mine).uid)], {}),
+                    ('locate', [op_locate()], {}),
+                    ('query', [op_query((E.QueryFunction.QUERY_OPERATIONS, E.QueryFunction.QUERY_OBJECTS, E.QueryFunction.QUERY_SERVER_INFORMATION))], {}),
+                    ('get_placeholder', [op_get(None)], {}),
+                    ('get_attribute_list', [op_get_attribute_list(rng.choice(mine).uid)], {}),
+                    ('get_big_limited', [op_get((big if user == 'alice' else bigb).uid)], {'max_size': rng.choice((100, 900, 4096))}),
+                    ('register', [op_register('sym', secret_sym(FIXED_KEY), sym_attrs(length=128, masks=ALL_MASKS, names=['probe-%d-%d' % (case['conn'], rnd)]))], {})))
+                try:
+                    probe = rig.encode_request(rig.build_request(pv, pops, **pkw), pv)
+                    rig.decode_request(probe)
+                except Exception:
+                    ctx.count('probe_not_encodable')
+                    continue
+                conn = rig.FakeConnection(b''.join(frames), cert, rng, rng.choice(('random', 'exact', 'large')))
+                sess = rig.make_session(srv.engine, conn, name='c11')
+
+                def drain():
+                    for _ in range(1000):
+                        try:
+                            sess._handle_message_loop()
+                        except exceptions.ConnectionClosed:
+                            return None
+                        except Exception as e:      # noqa
+                            return e
+                    return RuntimeError('kv: message loop did not come to the end of the stream')
+                esc = drain()
+                if esc is not None or len(conn.sent) != len(frames):
+                    ctx.count('prefix_not_fully_answered')     # C12's business
+                    continue
+                clock.advance(1)
+                twin_path = d + '/twin.sqlite'
+                shutil.copyfile(srv.db_path, twin_path)
+                t = clock.now
+                twin = rig.Server(twin_path, policies=srv.policies)
+                try:
+                    sent_t, esc_t = rig.session_roundtrip(twin.engine, probe, cert, rng, 'exact')
+                    dump_t = twin.dump()
+                finally:
+                    twin.close()
+                clock.now = t
+                conn.feed(probe)
+                esc = drain()
+                dump_l = srv.dump()
+                clock.now = t + 1
+                ctx.ev()
+                ctx.count('connection_twin_pairs_compared')
+                ctx.cell('conn', kinds[-1], pname, '%d.%d' % pv)
+                detail = {'prefix': kinds, 'probe': pname, 'probe_version': pv, 'user': user, 'probe_hex': probe.hex()[:600]}
+                if esc is not None or esc_t is not None or len(conn.sent) != len(frames) + 1 or len(sent_t) != 1:
+                    if (esc is None) != (esc_t is None) or (len(conn.sent) - len(frames)) != len(sent_t):
+                        ctx.violation('conn|%s|answering' % pname, 'the probe is answered on a new connection (%d response(s), %r) and not '
+                                      'on the used one (%d, %r), or the reverse' % (len(sent_t), esc_t, len(conn.sent) - len(frames), esc), detail)
+                    continue
+                rl, rt = rig.Result(conn.sent[-1]), rig.Result(sent_t[0])
+                if rl.norm() != rt.norm() or dump_l != dump_t:
+                    ctx.violation('conn|%s|%s' % (pname, 'state' if rl.norm() != rt.norm() else 'store'),
+                                  'probe %s after %s on the same connection is answered %s; on a new connection to a new engine over the '
+                                  'same store %s%s' % (pname, kinds, rl.brief(), rt.brief(), '' if dump_l == dump_t else ' (stores differ afterwards)'),
+                                  dict(detail, dump_diff=rig.dump_diff(dump_t, dump_l)))
+                if rl.ok() and pname == 'register':
+                    objs.append(store.Obj(rl.uid(), 'sym', user, 'default', 'pre', ALL_MASKS))
+        finally:
+            srv.close()
+
+
 def run_case(ctx, case):
+    if 'conn' in case:
+        return run_connection(ctx, case)
     rng = ctx.rng()
     clock = rig.install_clock(rig.VClock(step=0))
     with rig.scratch_dir() as d:
